@@ -703,15 +703,15 @@ func plans() []plan {
 		g("S3-all", 3, p2, s3, 1, true),
 		g("S7-all", 3, p2, s7, 1, true),
 		g("S2-all", 3, nil, s2, 3, true),
-		g("S5-all", 3, nil, s5, 5, true),
+		g("S5-all", 3, nil, s5, 5, false),
 		g("S6-all", 3, p2, s6, 3, false),
-		g("S5r-all", 3, nil, s5r, 10, false),
+		g("S5r-all", 3, nil, s5r, 14, false),
 		// full mode: every hooked mutex/atomic operation is a scheduling point as well
 		f("S1-full", 2, nil, s1, 2, 4, 0.5),
 		f("S4-full", 2, nil, s4, 2, 4, 0.5),
 		f("S3-full", 3, p2, s3, 1, 3, 2),
-		f("S2-full", 3, nil, s2, 1, 3, 3),
-		f("S5-full", 3, nil, s5, 1, 3, 4),
+		f("S2-full", 3, nil, s2, 1, 2, 1),
+		f("S5-full", 3, nil, s5, 1, 2, 1),
 	}
 }
 
@@ -734,6 +734,11 @@ func TestCheck(t *testing.T) {
 			list = append(list, d1x.Scenario{Name: p.sc.name, QuickBound: p.quick, ThoroughBound: p.thorough, Weight: p.weight, Judge: judge,
 				New: func() vsched.Harness { return &h{sc: p.sc, verbose: verbose} }})
 		}
+		var names []string
+		for _, sc := range list {
+			names = append(names, sc.Name)
+		}
+		c.Note("scope", fmt.Sprintf("scenarios run in this tier: %v. '-all' = storage-level mode: scheduling decisions only at storage calls (provider-local code runs as forced moves), every choice free, so the reported 'bound 0' is ALL interleavings of the storage calls; '-full' = every hooked mutex/atomic operation and every storage call is a scheduling point, all schedules up to the listed preemption bound. states = distinct storage-call interleavings (calls with their results, per scenario shape) + distinct outcomes.", names))
 		d1x.Run(t, c, list)
 	})
 }
